@@ -82,6 +82,57 @@ def _p1_body(vals, flags):
     return True
 
 
+_ALPHA = "a\n\r\x0c\u2028 "
+
+
+def _p1s(s: str, t: str, f0: bool, f1: bool, f2: bool):
+    """string-valued plan entries: both paths must canonicalise line endings identically, and two strings that are
+    different after the DOCUMENTED canonicalisation (CRLF / CR -> LF, nothing else) must give different spec ids."""
+    from vt.engine import assume
+
+    assume(len(s) <= 2 and len(t) <= 2)
+    assume(all(c in _ALPHA for c in s) and all(c in _ALPHA for c in t))
+    return _p1s_body(s, t, [f0, f1, f2])
+
+
+def _make_p1s(param):
+    f0, f1, f2 = param
+
+    def p1s(s: str, t: str):
+        return _p1s(s, t, f0, f1, f2)
+
+    return p1s
+
+
+def _canon(x: str) -> str:
+    out = []
+    i = 0
+    while i < len(x):
+        if x[i] == "\r":
+            out.append("\n")
+            if i + 1 < len(x) and x[i + 1] == "\n":
+                i += 1
+        else:
+            out.append(x[i])
+        i += 1
+    return "".join(out)
+
+
+def _p1s_body(s, t, flags):
+    if ihash.INSTALLED:
+        ihash.reset()
+    i1, c1 = _spec_ids(_block([s, "x", 7], flags))
+    i2, c2 = _spec_ids(_block([t, "x", 7], flags))
+    if not (i1 == c1):
+        return Fail("C09.P1s:inspect-vs-trace-spec-id:string", "spec id of inspect and trace differ for the string value %r" % (s,))
+    same = _canon(s) == _canon(t)
+    if same != bool(c1 == c2):
+        return Fail("C09.P1s:trace-spec-id-vs-string-content", "trace spec ids %s although the values %r / %r are %s after line-ending canonicalisation" % ("equal" if c1 == c2 else "differ", s, t, "equal" if same else "different"))
+    if same != bool(i1 == i2):
+        return Fail("C09.P1s:inspect-spec-id-vs-string-content", "inspect spec ids %s although the values %r / %r are %s after line-ending canonicalisation" % ("equal" if i1 == i2 else "differ", s, t, "equal" if same else "different"))
+    return True
+
+
 def _p2(a: int, b: int, m: int, p_rs: int, p_ctx: bool, mut: int, w: int):
     from vt.engine import assume
 
@@ -216,10 +267,11 @@ def _nodes():
 
 
 def _make_p3(param):
-    n, idmode, attempt = param
+    n, idmode, attempt = param[:3]
+    warm = bool(param[3]) if len(param) > 3 else False
 
     def p3(x0: int, x1: int, x2: int, f0: bool, f1: bool, f2: bool, addend: int):
-        return _p3_body(n, [x0, x1, x2], [f0, f1, f2], addend, idmode, attempt)
+        return _p3_body(n, [x0, x1, x2], [f0, f1, f2], addend, idmode, attempt, warm)
 
     return p3
 
@@ -229,7 +281,7 @@ def _ser_view(ser):
     return (p.get("ref"), dict(p.get("parameters") or {}), dict(p.get("parameter_sources") or {}), sorted(ser.context_delta.created_keys), sorted(ser.context_delta.updated_keys), ser.status)
 
 
-def _p3_body(n, xs, fs, addend, idmode, attempt):
+def _p3_body(n, xs, fs, addend, idmode, attempt, warm=False):
     from vt import cliharness, lib
     from vt.memtrace import MemTrace
 
@@ -243,6 +295,10 @@ def _p3_body(n, xs, fs, addend, idmode, attempt):
         flags["run_space_launch_id"] = "launch-explicit"
     elif idmode == 1:
         flags["run_space_idempotency_key"] = "idem-key"
+    if warm:
+        # history: the identical launch (same launch id / idempotency key, same attempt) already ran once in this process;
+        # the launch under test must be bracketed and linked exactly like a first one
+        cliharness.run_cli(config, trace=MemTrace(), ctx={"addend": addend}, **flags)
     lib.reset_log()
     rc = cliharness.run_cli(config, trace=tr, ctx={"addend": addend}, **flags)
     cli_log = list(lib.LOG)
@@ -334,6 +390,9 @@ def obligations(tier: str) -> List[Ob]:
         Ob("C09.P1", lambda _p: _p1, lambda _p, a: C04._wrap(_p1_body([a["a"], a["b"], a["m"]], [a["f0"], a["f1"], a["f2"]])), budget=300,
            bound="run_space block with 2 symbolic context values, max_runs symbolic 1..50, optional fields combine/max_runs/dry_run present by 3 symbolic flags",
            targets=["semantiva/inspection/builder.py:_compute_run_space_spec_id", "semantiva/trace/runtime/run_space_identity.py:RunSpaceIdentityService._rscf_v1", "semantiva/configurations/load_pipeline_from_yaml.py:_parse_run_space_block"], stubs=["injective-hash model"]),
+        Ob("C09.P1s", _make_p1s, lambda p, a: C04._wrap(_p1s_body(a["s"], a["t"], list(p))), budget=900, per_path=60, params=[(a, b, c) for a in (False, True) for b in (False, True) for c in (False, True)],
+           bound="two symbolic strings of length <= 2 over the alphabet {a, LF, CR, FF, U+2028, space} as plan values; one obligation per combination of the 3 optional fields",
+           targets=["semantiva/inspection/builder.py:_compute_run_space_spec_id", "semantiva/trace/runtime/run_space_identity.py:RunSpaceIdentityService._rscf_v1"], stubs=["injective-hash model"]),
         Ob("C09.P2", lambda _p: _p2, lambda _p, a: C04._wrap(_p2_body([a["a"], a["b"], a["m"]], a["p_rs"], a["p_ctx"], a["mut"], a["w"])), budget=600,
            bound="key order of the block (4 rotations) and of its context mapping symbolic; 6 single-point mutations (context value, combine, max_runs, block mode, key name, extra block) with symbolic values",
            targets=["semantiva/inspection/builder.py:_compute_run_space_spec_id", "semantiva/trace/runtime/run_space_identity.py:RunSpaceIdentityService.compute"], stubs=["injective-hash model"]),
@@ -342,9 +401,9 @@ def obligations(tier: str) -> List[Ob]:
            targets=["semantiva/trace/runtime/run_space_launch.py:RunSpaceLaunchManager.create_launch"], stubs=["injective-hash model"]),
         Ob("C09.P2c", lambda _p: _p2c, lambda _p, a: C04._wrap(_p2c_body(a["d1"], a["d2"])), budget=300,
            bound="content digest of the referenced file = symbolic strings d1, d2 (len <= 3) through a stubbed _sha256_file", targets=["semantiva/trace/runtime/run_space_identity.py:RunSpaceIdentityService._rsm_v1_bytes"], stubs=["injective-hash model", "_sha256_file -> symbolic digest"]),
-        Ob("C09.P3", _make_p3, lambda p, a: C04._wrap(_p3_body(p[0], [a["x0"], a["x1"], a["x2"]], [a["f0"], a["f1"], a["f2"]], a["addend"], p[1], p[2])), budget=900, per_path=120,
-           params=[(n, i, at) for n in (1, 2, 3) for i in (0, 1, 2) for at in (1, 2, 3)],
-           bound="real cli._run, one obligation per (n runs in 1..3, launch-id option, attempt): per-run context values and shared --context value symbolic, failing run chosen by 3 symbolic flags, launch-id option (explicit / idempotency key / generated) and attempt 1..3 symbolic; 5-node pipeline",
+        Ob("C09.P3", _make_p3, lambda p, a: C04._wrap(_p3_body(p[0], [a["x0"], a["x1"], a["x2"]], [a["f0"], a["f1"], a["f2"]], a["addend"], p[1], p[2], bool(p[3]) if len(p) > 3 else False)), budget=900, per_path=120,
+           params=[(n, i, at) for n in (1, 2, 3) for i in (0, 1, 2) for at in (1, 2, 3)] + [(2, i, at, True) for i in (0, 1, 2) for at in (1, 2)],
+           bound="real cli._run, one obligation per (n runs in 1..3, launch-id option, attempt): per-run context values and shared --context value symbolic, failing run chosen by 3 symbolic flags; 6 extra obligations repeat the identical launch after it already ran once in the process; launch-id option (explicit / idempotency key / generated) and attempt 1..3 symbolic; 5-node pipeline",
            targets=["semantiva/cli/__init__.py:_run", "semantiva/trace/runtime/run_space_emitter.py:RunSpaceTraceEmitter.emit_start", "semantiva/trace/runtime/run_space_emitter.py:RunSpaceTraceEmitter.emit_end", "semantiva/pipeline/pipeline.py:Pipeline.set_run_metadata", "semantiva/execution/orchestrator/orchestrator.py:SemantivaOrchestrator.execute"], stubs=list(STUBS) + cliharness.STUBS),
     ]
 
